@@ -30,14 +30,15 @@ FAMILIES = {
     "seeds": {"quick": "seeds_quick", "thorough": "seeds_thorough", "owner": "C02"},
     "mixed": {"quick": "mixed_quick", "thorough": "mixed_thorough", "owner": "C02"},
     "crash": {"quick": "crash_quick", "thorough": "crash_thorough", "owner": "C05"},
+    "big": {"quick": "big_quick", "thorough": "big_thorough", "owner": "C03", "mc_module": "CloneGen"},
 }
 
 PLAN = {
     # property: families whose traces are validated, and the invariants of CloneMC that state the property
-    "C03": {"families": ["inplace", "scansub"], "invariants": ["ExactOnSuccess", "NoReusableLost", "NoBrokenRule", "ReorderPlacesAll"]},
+    "C03": {"families": ["inplace", "scansub", "big"], "invariants": ["ExactOnSuccess", "NoReusableLost", "NoBrokenRule", "ReorderPlacesAll"]},
     "C02": {"families": ["seeds", "mixed"], "invariants": ["ExactOnSuccess", "NoBrokenRule"]},
-    "C13": {"families": ["inplace", "seeds", "mixed"], "invariants": ["NoBrokenRule"]},
-    "C06": {"families": ["inplace", "seeds", "mixed", "scansub"], "invariants": ["FetchExactlyMissing", "ReorderPlacesAll"]},
+    "C13": {"families": ["inplace", "seeds", "mixed", "big"], "invariants": ["NoBrokenRule"]},
+    "C06": {"families": ["inplace", "seeds", "mixed", "scansub", "big"], "invariants": ["FetchExactlyMissing", "ReorderPlacesAll"]},
     "C05": {"families": ["crash"], "invariants": ["ExactOnSuccess", "NoBrokenRule"]},
 }
 
@@ -47,7 +48,7 @@ def replay_family(fam, tier, variant, workdir):
     cfgname = FAMILIES[fam][tier]
     scen = gen_cached("CloneGen", "CloneGen_%s.cfg" % cfgname, "clone_" + cfgname)
     nscen = sum(1 for _ in open(scen))
-    shards = min(NCPU, 16, max(1, nscen // 200))
+    shards = min(NCPU, 16, max(1, nscen // (200 * variant.get("every", 1))))
     procs = []
     traces = []
     for i in range(shards):
@@ -57,6 +58,8 @@ def replay_family(fam, tier, variant, workdir):
                "--mode", variant["mode"], "--shards", str(shards), "--shard", str(i), "--seed", str(seed())]
         if variant.get("max_faults"):
             cmd += ["--max-faults", str(variant["max_faults"])]
+        if variant.get("every"):
+            cmd += ["--every", str(variant["every"])]
         procs.append(subprocess.Popen(["timeout", "1200"] + cmd, stdout=subprocess.PIPE, stderr=subprocess.PIPE,
                                       env=dict(os.environ, RUST_BACKTRACE="0", VH_HL=str(variant.get("hl", 64))), preexec_fn=lambda: __import__("resource").setrlimit(__import__("resource").RLIMIT_AS, (8 << 30, 8 << 30))))
     runs = 0
@@ -70,10 +73,10 @@ def replay_family(fam, tier, variant, workdir):
 
 L2_PLAN = {
     # property: [(family, take every n-th scenario quick/thorough, mode)]
-    "C03": [("inplace", 40, 8, "plain"), ("scansub", 60, 10, "plain")],
-    "C02": [("seeds", 60, 10, "plain"), ("mixed", 20, 4, "plain")],
-    "C13": [("inplace", 80, 12, "plain"), ("mixed", 30, 6, "plain")],
-    "C06": [("inplace", 70, 11, "plain"), ("mixed", 25, 5, "plain"), ("seeds", 120, 20, "plain")],
+    "C03": [("inplace", 40, 8, "plain"), ("scansub", 60, 10, "plain"), ("big", 15, 40, "plain"), ("big", 2, 8, "bulk")],
+    "C02": [("seeds", 60, 10, "plain"), ("mixed", 20, 4, "plain"), ("big", 2, 8, "bulk")],
+    "C13": [("inplace", 80, 12, "plain"), ("mixed", 30, 6, "plain"), ("big", 20, 60, "plain"), ("big", 2, 8, "bulk")],
+    "C06": [("inplace", 70, 11, "plain"), ("mixed", 25, 5, "plain"), ("seeds", 120, 20, "plain"), ("big", 3, 12, "bulk")],
     "C07": [("mixed", 20, 4, "plain"), ("seeds", 80, 16, "plain")],
     "C08": [("mixed", 25, 5, "httpfaults"), ("inplace", 150, 30, "httpfaults")],
     "C05": [("crash", 12, 2, "faults"), ("seeds", 250, 50, "faults"), ("mixed", 70, 14, "faults")],
@@ -146,7 +149,7 @@ def run_clone_check(prop, tier):
     # 1. design level: exhaustive model checking of Clone.tla + Planner.tla in every family's bound
     for fam in plan["families"]:
         cfg = "CloneMC_%s.cfg" % FAMILIES[fam][tier]
-        res = tlc_mc("CloneMC", cfg, workers=8, timeout=3000)
+        res = tlc_mc(FAMILIES[fam].get("mc_module", "CloneMC"), cfg, workers=8, timeout=3000, env={"GEN_OUT": os.path.join(workdir, "unused_gen.ndjson")})
         states += res["stats"]["distinct"]
         trans += res["stats"]["generated"]
         mc_runs.append({"cfg": cfg, "distinct_states": res["stats"]["distinct"], "generated": res["stats"]["generated"],
@@ -176,6 +179,11 @@ def run_clone_check(prop, tier):
             variants.append((fam, {"unit": 4, "comp": "none", "mode": "faults", "max_faults": 0 if tier == "thorough" else 0}))
         else:
             variants.append((fam, {"unit": 4, "comp": "none", "mode": "plain"}))
+    if prop in ("C13", "C03"):
+        # chunks larger than any buffer in the write path (tokio's 2 MiB file buffer, the 1 MiB chunker refill): unit of 800 000 bytes,
+        # chunks of 0.8 - 3.2 MB, on a sample of the layouts
+        variants.append(("inplace", {"unit": 800000, "comp": "none", "mode": "plain", "every": 150 if tier == "quick" else 20}))
+        variants.append(("big", {"unit": 800000, "comp": "none", "mode": "plain", "every": 40 if tier == "quick" else 100}))
     if prop in ("C02", "C06"):
         # truncated hash lengths (A1 guard: the harness checks that distinct contents keep distinct truncated hashes)
         variants.append(("seeds", {"unit": 4, "comp": "none", "mode": "plain", "hl": 8}))
